@@ -264,6 +264,16 @@ DoCat ==
                  parts |-> IF flip THEN <<pool[j], Last>> ELSE <<Last, pool[j]>>, pn |-> pn])
        IN Admissible(t) /\ Push(t)
 
+\* a Cat of THREE parts at once (the newest term and two others), under a new name
+DoCat3 ==
+  /\ "Cat3" \in Acts /\ CanStep /\ Len(pool) >= 3
+  /\ \E j1, j2 \in 1..(Len(pool) - 1), n \in 1..Len(NewNames), p \in 1..Len(RedVars), pos \in 1..3 :
+       LET pn == RedVars[p][1]
+           parts == IF pos = 1 THEN <<Last, pool[j1], pool[j2]>>
+                    ELSE IF pos = 2 THEN <<pool[j1], Last, pool[j2]>> ELSE <<pool[j1], pool[j2], Last>>
+           t == Mk([c |-> "Cat", name |-> NewNames[n], parts |-> parts, pn |-> pn])
+       IN j1 # j2 /\ Admissible(t) /\ Push(t)
+
 DoAlign ==
   /\ "Align" \in Acts /\ CanStep
   /\ LET ns == NameSeq(Last.ti) IN
@@ -324,7 +334,7 @@ DoInteg ==
                     integrand |-> IF flip THEN pool[j] ELSE Last, vars |-> SubSeqByMask(RedVars, mask)])
        IN Admissible(t) /\ Push(t)
 
-Next == DoInteg \/ DoDelta \/ DoDelta2 \/ DoCon \/ AddLeaf \/ DoUn \/ DoBin \/ DoGetitem \/ DoRed \/ DoSub \/ DoLam \/ DoStack
+Next == DoInteg \/ DoDelta \/ DoDelta2 \/ DoCat3 \/ DoCon \/ AddLeaf \/ DoUn \/ DoBin \/ DoGetitem \/ DoRed \/ DoSub \/ DoLam \/ DoStack
         \/ DoCat \/ DoAlign \/ DoIndep
 
 Init == pool = <<>> /\ nops = 0
